@@ -71,23 +71,24 @@ C03Problems(ev) ==
 
 TypeCodeOde == [variable_of_integration |-> "0", state |-> "1", constant |-> "2", computed_constant |-> "3", algebraic |-> "4", external |-> "5"]
 TypeCodeAlg == [constant |-> "0", computed_constant |-> "1", algebraic |-> "2", external |-> "3"]
-C17Problems(ev) ==
-    IF ~ev.run \/ "c" \notin DOMAIN ev THEN {}
-    ELSE LET base == ev.variants[1]
-             ns == Cardinality({k \in DOMAIN base.vars : base.vars[k].kind = "s"})
+C17Core(base, ode, c, py) ==
+         LET ns == Cardinality({k \in DOMAIN base.vars : base.vars[k].kind = "s"})
              nvv == Cardinality({k \in DOMAIN base.vars : base.vars[k].kind = "v"})
-             ode == HasStates(ev.sys)
              code == IF ode THEN TypeCodeOde ELSE TypeCodeAlg
              Row(r, kind, i) == \E k \in DOMAIN base.vars : base.vars[k].kind = kind /\ base.vars[k].index = i - 1 /\ r.name = base.vars[k].name /\ r.component = base.vars[k].comp
                                                             /\ r.units = base.vars[k].units /\ r.type = code[base.vars[k].type]
-         IN (IF ev.c.built /\ ev.c.diag = "" THEN {} ELSE {"generated C does not compile cleanly"})
-            \cup (IF ev.py.built THEN {} ELSE {"generated Python does not load"})
-            \cup (IF ev.c.variableCount = nvv /\ ev.py.variableCount = nvv /\ (ode => ev.c.stateCount = ns /\ ev.py.stateCount = ns) THEN {} ELSE {"STATE_COUNT / VARIABLE_COUNT differ from the analysed model"})
-            \cup (IF Len(ev.c.variableInfo) = nvv /\ (\A i \in DOMAIN ev.c.variableInfo : Row(ev.c.variableInfo[i], "v", i)) /\ (\A i \in DOMAIN ev.c.stateInfo : Row(ev.c.stateInfo[i], "s", i))
-                     /\ Len(ev.c.stateInfo) = (IF ode THEN ns ELSE 0) THEN {} ELSE {"C info tables differ from the analyser variables"})
-            \cup (IF Len(ev.py.variableInfo) = nvv /\ (\A i \in DOMAIN ev.py.variableInfo : Row(ev.py.variableInfo[i], "v", i)) /\ (\A i \in DOMAIN ev.py.stateInfo : Row(ev.py.stateInfo[i], "s", i)) THEN {} ELSE {"Python info tables differ from the analyser variables"})
-            \cup (IF ev.c.infoFits THEN {} ELSE {"an info string does not fit its declared buffer"})
-            \cup (IF SR(ev.c.declared) \subseteq SR(ev.c.defined) /\ Len(ev.c.defined) = Cardinality(SR(ev.c.defined)) /\ Len(ev.c.declared) = Cardinality(SR(ev.c.declared)) THEN {} ELSE {"a function declared in the interface is not defined exactly once"})
+         IN (IF c.built /\ c.diag = "" THEN {} ELSE {"generated C does not compile cleanly (or does not link: a declared function is not defined)"})
+            \cup (IF py.built THEN {} ELSE {"generated Python does not load"})
+            \cup (IF c.variableCount = nvv /\ py.variableCount = nvv /\ (ode => c.stateCount = ns /\ py.stateCount = ns) THEN {} ELSE {"STATE_COUNT / VARIABLE_COUNT differ from the analysed model"})
+            \cup (IF Len(c.variableInfo) = nvv /\ (\A i \in DOMAIN c.variableInfo : Row(c.variableInfo[i], "v", i)) /\ (\A i \in DOMAIN c.stateInfo : Row(c.stateInfo[i], "s", i))
+                     /\ Len(c.stateInfo) = (IF ode THEN ns ELSE 0) THEN {} ELSE {"C info tables differ from the analyser variables"})
+            \cup (IF Len(py.variableInfo) = nvv /\ (\A i \in DOMAIN py.variableInfo : Row(py.variableInfo[i], "v", i)) /\ (\A i \in DOMAIN py.stateInfo : Row(py.stateInfo[i], "s", i)) THEN {} ELSE {"Python info tables differ from the analyser variables"})
+            \cup (IF c.infoFits THEN {} ELSE {"an info string does not fit its declared buffer"})
+            \cup (IF SR(c.declared) \subseteq SR(c.defined) /\ Len(c.defined) = Cardinality(SR(c.defined)) /\ Len(c.declared) = Cardinality(SR(c.declared)) THEN {} ELSE {"a function declared in the interface is not defined exactly once"})
+C17Problems(ev) ==
+    IF ev.e = "ext" THEN (IF "c" \notin DOMAIN ev THEN {} ELSE C17Core(ev.marked, HasStates(ev.sys), ev.c, ev.py))        \* models with external variables
+    ELSE IF ~ev.run \/ "c" \notin DOMAIN ev THEN {}
+    ELSE C17Core(ev.variants[1], HasStates(ev.sys), ev.c, ev.py)
 \* ---------------------------------------------------------------- C20: external variables
 MESSAGE == "M"
 ByName(vars, n) == vars[CHOOSE i \in DOMAIN vars : vars[i].name = n]
@@ -152,10 +153,10 @@ Problems(ev) == CASE Mode = "C05" -> C05Problems(ev) [] Mode = "C03" -> C03Probl
 Next == /\ l <= Len(TraceLog) /\ l' = l + 1
         /\ LET ev == TraceLog[l] IN
            IF ev.e = "Reset" THEN TRUE
-           ELSE IF ev.e # (IF Mode = "C20" THEN "ext" ELSE "system") THEN Verdict("bad", l, ev.sc, <<ev.e>>)
+           ELSE IF ev.e \notin (CASE Mode = "C20" -> {"ext"} [] Mode = "C17" -> {"system", "ext"} [] OTHER -> {"system"}) THEN Verdict("bad", l, ev.sc, <<ev.e>>)
            ELSE IF Problems(ev) = {} THEN TRUE
            ELSE IF \E d \in KnownDeviations : Dev(d, ev) THEN Verdict("known", l, ev.sc, CHOOSE d \in KnownDeviations : Dev(d, ev))
-           ELSE Verdict("bad", l, ev.sc, <<Problems(ev), ev.sys, IF Mode = "C20" THEN ev.marked.type ELSE ev.variants[1].type>>)
+           ELSE Verdict("bad", l, ev.sc, <<Problems(ev), ev.sys, IF ev.e = "ext" THEN ev.marked.type ELSE ev.variants[1].type>>)
 Spec == Init /\ [][Next]_l
 Accepted == LET d == TLCGet("stats").diameter IN PrintT(<<"DEPTH", d>>) /\ d - 1 = Len(TraceLog)
 =============================================================================
